@@ -85,11 +85,15 @@ pub fn nullable(r: &Rx) -> bool {
 }
 
 fn mk_cat(a: Rx, b: Rx) -> Rx {
-    match (&a, &b) {
-        (Empty, _) | (_, Empty) => Empty,
-        (Eps, _) => b,
-        (_, Eps) => a,
-        _ => Cat(Rc::new(a), Rc::new(b)),
+    match a {
+        Empty => Empty,
+        Eps => b,
+        Cat(x, y) => mk_cat((*x).clone(), mk_cat((*y).clone(), b)),
+        a => match b {
+            Empty => Empty,
+            Eps => a,
+            b => Cat(Rc::new(a), Rc::new(b)),
+        },
     }
 }
 
@@ -125,10 +129,66 @@ fn mk_alt(a: Rx, b: Rx) -> Rx {
     }
 }
 
+fn univ() -> Rx {
+    Compl(Rc::new(Empty))
+}
+
+fn mk_and_r(a: &Rx, b: Rx) -> Rx {
+    match b {
+        Empty => Empty,
+        Alt(x, y) => mk_alt(mk_and_r(a, (*x).clone()), mk_and_r(a, (*y).clone())),
+        b => {
+            if *a == univ() {
+                b
+            } else if b == univ() {
+                a.clone()
+            } else {
+                And(Rc::new(a.clone()), Rc::new(b))
+            }
+        }
+    }
+}
+
 fn mk_and(a: Rx, b: Rx) -> Rx {
-    match (&a, &b) {
-        (Empty, _) | (_, Empty) => Empty,
-        _ => And(Rc::new(a), Rc::new(b)),
+    match a {
+        Empty => Empty,
+        Alt(x, y) => mk_alt(mk_and((*x).clone(), b.clone()), mk_and((*y).clone(), b)),
+        a => mk_and_r(&a, b),
+    }
+}
+
+fn mk_star(a: Rx) -> Rx {
+    match a {
+        Empty | Eps => Eps,
+        Star(x) => Star(x),
+        a => Star(Rc::new(a)),
+    }
+}
+
+/// Bottom-up normalisation (mirror of `Rx.norm`).
+pub fn norm(r: &Rx) -> Rx {
+    match r {
+        Single(s) => {
+            if s.iter().all(|(_, m)| *m == [0; 4]) {
+                Empty
+            } else {
+                r.clone()
+            }
+        }
+        Cat(a, b) => mk_cat(norm(a), norm(b)),
+        Alt(a, b) => mk_alt(norm(a), norm(b)),
+        And(a, b) => mk_and(norm(a), norm(b)),
+        Star(a) => mk_star(norm(a)),
+        Compl(a) => Compl(Rc::new(norm(a))),
+        r => r.clone(),
+    }
+}
+
+pub fn size(r: &Rx) -> usize {
+    match r {
+        Cat(a, b) | Alt(a, b) | And(a, b) => 1 + size(a) + size(b),
+        Star(a) | Compl(a) => 1 + size(a),
+        _ => 1,
     }
 }
 
@@ -222,4 +282,62 @@ pub fn matches_bytes(r: &Rx, bytes: &[u8], ms: &[usize]) -> Option<Vec<usize>> {
     let mut acc = vec![];
     let mut budget = 20000;
     go(r, bytes, ms, &mut acc, &mut budget).then_some(acc)
+}
+
+/// Result of the product exploration automaton × derivatives (mirror of the Lean search).
+pub enum Explored {
+    /// closed: number of pairs
+    Equiv(usize),
+    /// a distinguishing marked word
+    Diff(Vec<(u8, usize)>),
+    /// pair or size budget exceeded
+    Budget,
+}
+
+/// Breadth-first closure of (automaton state or deadlock, derivative) under `letters`.
+/// `step(s, b, m)`: the automaton read as a machine over marked letters.
+pub fn explore(
+    init: usize,
+    is_final: &dyn Fn(usize) -> bool,
+    lookup: &dyn Fn(usize, u8) -> Option<(usize, usize)>,
+    r: &Rx,
+    letters: &[(u8, usize)],
+    max_pairs: usize,
+    max_size: usize,
+) -> Explored {
+    use std::collections::HashMap;
+    let mut pairs: Vec<(Option<usize>, Rx)> = vec![(Some(init), norm(r))];
+    let mut parent: Vec<(usize, (u8, usize))> = vec![(0, (0, 0))];
+    let mut idx: HashMap<(Option<usize>, Rx), usize> = HashMap::new();
+    idx.insert(pairs[0].clone(), 0);
+    let mut i = 0;
+    while i < pairs.len() {
+        let (s, t) = pairs[i].clone();
+        let acc_s = s.map(is_final).unwrap_or(false);
+        if acc_s != nullable(&t) {
+            let mut w = vec![];
+            let mut j = i;
+            while j != 0 {
+                w.push(parent[j].1);
+                j = parent[j].0;
+            }
+            w.reverse();
+            return Explored::Diff(w);
+        }
+        if size(&t) > max_size || pairs.len() > max_pairs {
+            return Explored::Budget;
+        }
+        for &(b, m) in letters {
+            let s2 = s.and_then(|s| lookup(s, b)).and_then(|(t2, m2)| (m2 == m).then_some(t2));
+            let t2 = deriv(b, m, &t);
+            let p = (s2, t2);
+            if !idx.contains_key(&p) {
+                idx.insert(p.clone(), pairs.len());
+                pairs.push(p);
+                parent.push((i, (b, m)));
+            }
+        }
+        i += 1;
+    }
+    Explored::Equiv(pairs.len())
 }
